@@ -350,7 +350,7 @@ func errClass(err error) int {
 }
 
 // verif:harness props=C13 tier=quick weight=90
-// verif:bounds the same state (N=2 rows/items on routes r0/r1; thorough 3 for the single-lease and dequeue families; any states, arbitrary timestamps) in a MemoryStore and in a SQLiteStore over the SQL model, one operation with the same arguments on both: ack/nack/extend/mark-dead with a lease id from {current ids, unknown, blank} and arbitrary durations; ack/nack/mark-dead batch of 2; cancel/requeue/resume/DLQ requeue/DLQ delete by an id list of 2; dequeue with route filter none/r0/r1, batch N and arbitrary TTL (sweep due); single enqueue of a fresh or existing id under max_depth 1..N+1 with reject/drop_oldest (received_at in insertion order, active count within the limit); delivered-retention on/off on both
+// verif:bounds the same state (N=2 rows/items on routes r0/r1; thorough 3 for the single-lease and dequeue families; any states, arbitrary timestamps) in a MemoryStore and in a SQLiteStore over the SQL model, one operation with the same arguments on both: ack/nack/extend/mark-dead with a lease id from {current ids, unknown, blank} and arbitrary durations; ack/nack/mark-dead batch of 2; cancel/requeue/resume/DLQ requeue/DLQ delete by an id list of 2; dequeue with route filter none/r0/r1, batch N and arbitrary TTL (sweep due); single enqueue of a fresh or existing id (received_at and next_run_at each absent or arbitrary) under max_depth 1..N+1 with reject/drop_oldest (received_at in insertion order, active count within the limit); delivered-retention on/off on both
 func VerifC13MemoryVsSQLite() {
 	family := vrt.Choose("family", 5)
 	n := 2
@@ -468,6 +468,16 @@ func VerifC13MemoryVsSQLite() {
 		m.s.maxDepth, m.s.dropPolicy = depth, policy
 		id := []string{"n1", "m0"}[vrt.Choose("new-id", 2)]
 		env := Envelope{ID: id, Route: "r1", Target: "t0", Payload: []byte("p")}
+		// the caller may fix the instants itself (admin publish with received_at / next_run_at); absent ones are defaulted
+		if vrt.Bool("explicit-received-at") {
+			env.ReceivedAt = vrt.Time("new-received-at")
+			for i := 0; i < n; i++ {
+				vrt.Assume(!env.ReceivedAt.Before(m.s.items[w.ids[i]].ReceivedAt)) // (still the newest: same drop_oldest victim)
+			}
+		}
+		if vrt.Bool("explicit-next-run-at") {
+			env.NextRunAt = vrt.Time("new-next-run-at")
+		}
 		e1 := m.s.Enqueue(env)
 		e2 := w.s.Enqueue(env)
 		cls := func(err error) int {
